@@ -675,10 +675,22 @@ func c03GenTokenNow(r *verifh.Rng) verifh.Section {
 		switch x := r.Intn(20); {
 		case x < 9:
 			ops = append(ops, fmt.Sprintf("allow0 %d", i))
-		case x < 14:
+		case x < 12:
 			ops = append(ops, fmt.Sprintf("allowctx0 %d", i))
-		case x < 16:
+		case x < 14:
 			ops = append(ops, fmt.Sprintf("%s %d", r.PickS("allowx0", "allowd0", "allowf0"), i))
+		case x < 16 && !down:
+			// every reply kind of the server through the wall-clock entry points: served through the EVAL fallback,
+			// forged string (-> local limiter) / integer that is not 1 / nil (-> refused)
+			m := r.PickS("noscript", "strreply", "int3reply", "intm1reply", "nilreply")
+			ops = append(ops, "link "+m)
+			for q := 0; q < ninst; q++ {
+				ops = append(ops, fmt.Sprintf("%s %d", r.PickS("allow0", "allowctx0", "allowf0"), q))
+			}
+			if r.Bool() {
+				ops = append(ops, fmt.Sprintf("%s %d", r.PickS("allowx0", "allowd0"), i))
+			}
+			ops = append(ops, "up", fmt.Sprintf("allow0 %d", i))
 		case x < 17:
 			// drain through both entry points over all instances
 			for q := 0; q < burst+2; q++ {
